@@ -612,8 +612,10 @@ pub fn normalize(ty: &Ty, v: &Val) -> Val {
 			items.len() as u64,
 			Box::new(items.first().map(|x| normalize(elem, x)).unwrap_or_else(|| elem.default_val())),
 		),
-		(Ty::Seq { elem, .. } | Ty::Array(elem, _), Val::Repeat(n, x)) =>
+		(Ty::Seq { elem, .. } | Ty::Array(elem, _), Val::Repeat(n, x)) if elem.zero_width() || *n > 1 << 20 =>
 			Val::Repeat(*n, Box::new(if *n == 0 { elem.default_val() } else { normalize(elem, x) })),
+		(Ty::Seq { elem, .. } | Ty::Array(elem, _), Val::Repeat(n, x)) =>
+			Val::Seq((0..*n).map(|_| normalize(elem, x)).collect()),
 		(Ty::Seq { elem, .. }, Val::Seq(items)) =>
 			Val::Seq(items.iter().map(|x| normalize(elem, x)).collect()),
 		(Ty::Array(elem, _), Val::Seq(items)) =>
